@@ -257,10 +257,12 @@ class Graph(BaseGraph):
     def remove_edge(self,u,v):
         if not self.has_edge(u,v):
             return
+        # look both lists up before changing anything (see add_edge)
+        adju, adjv = self.adjlist[u], self.adjlist[v]
         self.edgeset.remove((u,v))
         self.edgeset.remove((v,u))
-        self.adjlist[u].remove(v)
-        self.adjlist[v].remove(u)
+        adju.remove(v)
+        adjv.remove(u)
         self.m -= 1
 
     def has_edge(self, u, v):
